@@ -345,6 +345,29 @@ def runConstMemo (w : Thermo.World φ (Dict ρ) ρ) (o : Dict ρ) (h : Thermo.Hi
 end ThermoMemo
 
 /-!
+### The defect class "a read-only query binds a new name on the isotherm" (export = instance dictionary minus the reserved names)
+
+`BaseIsotherm.to_dict()` is `vars(self)` without the names listed in `_reserved_params`; the identifier, `==` and the three exporters are functions
+of that dictionary.  A query that memoises something on the instance (`self.<name> = value` when absent) is therefore invisible exactly when the
+name is reserved.  `readTemperature` is the shape of the seeded change seedout7/C04-m1: the kelvin value is memoised only when the temperature is
+STORED in another unit — an isotherm kept in kelvin takes the early return and nothing is bound (why the stored representation is a dimension
+of the worlds of the failing-input search).
+-/
+namespace Export
+open ThermoMemo
+
+variable {ρ : Type}
+
+/-- `to_dict()`: the instance dictionary without the reserved names -/
+def toDict (reserved : List String) (vars : Dict ρ) : Dict ρ := vars.filter (fun kv => !(reserved.contains kv.1))
+
+/-- the `temperature` property with a memo on the instance: (value in kelvin, instance dictionary afterwards) -/
+def readTemperature (toKelvin : ρ → ρ) (unit : String) (stored : ρ) (memoName : String) (vars : Dict ρ) : ρ × Dict ρ :=
+  if unit = "K" then (stored, vars) else (toKelvin stored, setdefault vars memoName (toKelvin stored))
+
+end Export
+
+/-!
 ### The defect class "an accessor memoises its result under a COARSENED argument"
 
 A one-flash accessor (`saturation_pressure`, the densities, `surface_tension`) keeps a private table `coarse f ↦ value` beside the CoolProp
